@@ -13,6 +13,8 @@ Record case := mkCase {
                                in the harness (trivially true when nothing was recorded) *)
 }.
 
+(* 1 and 4 are the signatures of the two defects repaired in /repo (fea246c, a08b807): a
+   regression is reported under the same name with the hello as replay *)
 Definition SIG_GREASE_KEPT := 1.        (* the string keeps GREASE ciphers/curves, otherwise right *)
 Definition SIG_JA3_WRONG := 2.          (* any other difference from the specification's string *)
 Definition SIG_SNI := 3.                (* recorded server name <> SNI sent *)
@@ -20,8 +22,9 @@ Definition SIG_OLD_VERSION_UNRECORDED := 4.   (* hello below TLS 1.0: nothing re
 Definition SIG_UNRECORDED := 5.         (* nothing recorded for a hello in scope *)
 Definition SIG_DIGEST := 6.             (* digest is not the MD5 of the JA3 string *)
 
-(* the hellos the property speaks about: well-formed, SSL3 and up, negotiable *)
-Definition in_scope (h : hello) : bool := wf_hello h && negotiable h && (768 <=? h_vers h).
+(* the hellos the property speaks about: every well-formed one, whatever the server would
+   negotiate afterwards *)
+Definition in_scope (h : hello) : bool := wf_hello h.
 
 Definition case_sig (c : case) : N :=
   if negb (c_digest_ok c) then SIG_DIGEST else
